@@ -169,6 +169,9 @@ const (
 
 // verifNextOutcome reads the next scripted backend behaviour.
 func verifNextOutcome() (kind int, status int) {
+	if verifForceOK {
+		return verifOutStatus, 200
+	}
 	kind = verifrt.Choice("backendOutcome", 3)
 	status = 200
 	if kind != verifOutRefused {
